@@ -29,6 +29,40 @@ static struct iwpool *live_pools[MAXLIVE]; static int n_pools;
 static struct jbl *live_jbls[MAXLIVE]; static int n_jbls;
 static void *live_bufs[MAXLIVE]; static int n_bufs;
 
+// binary form built member by member through the setter API (jbl_create_empty_* + jbl_set_*): the holder is left as the
+// setters leave it (header not flushed). Returns 1 when the tree cannot go through the setters (NUL inside a string or key).
+static int setbuild(struct jbl_node *n, struct jbl **out, iwrc *rcp) {
+  *rcp = n->type == JBV_OBJECT ? jbl_create_empty_object(out) : jbl_create_empty_array(out);
+  if (*rcp) return 0;
+  for (struct jbl_node *c = n->child; c && !*rcp; c = c->next) {
+    char *key = 0, *sv = 0;
+    if (n->type == JBV_OBJECT) {
+      if (memchr(c->key, 0, c->klidx)) return 1;
+      key = strndup(c->key, c->klidx);
+    }
+    switch (c->type) {
+      case JBV_I64: *rcp = jbl_set_int64(*out, key, c->vi64); break;
+      case JBV_F64: *rcp = jbl_set_f64(*out, key, c->vf64); break;
+      case JBV_BOOL: *rcp = jbl_set_bool(*out, key, c->vbool); break;
+      case JBV_NULL: *rcp = jbl_set_null(*out, key); break;
+      case JBV_STR:
+        if (memchr(c->vptr, 0, c->vsize)) { free(key); return 1; }
+        sv = strndup(c->vptr, c->vsize); *rcp = jbl_set_string(*out, key, sv); free(sv); break;
+      case JBV_OBJECT: case JBV_ARRAY: {
+        struct jbl *nested = 0;
+        int bad = setbuild(c, &nested, rcp);
+        if (!bad && !*rcp) *rcp = jbl_set_nested(*out, key, nested);
+        if (nested) jbl_destroy(&nested);
+        if (bad) { free(key); return 1; }
+        break;
+      }
+      default: free(key); return 1;
+    }
+    free(key);
+  }
+  return 0;
+}
+
 static void drop_all(void) {
   for (int i = 0; i < n_jbls; ++i) jbl_destroy(&live_jbls[i]);
   for (int i = 0; i < n_pools; ++i) iwpool_destroy(live_pools[i]);
@@ -131,12 +165,31 @@ int main(int argc, char **argv) {
       if (!tree || pos != n) { printf("doc bad\n"); drop_all(); continue; }
       kind = K_TREE;
       printf("doc "); dump_cur(); printf("\n");
-    } else if ((!strcmp(w[0], "fromnode") || !strcmp(w[0], "fill")) && n == 1) {
+    } else if ((!strcmp(w[0], "fromnode") || !strcmp(w[0], "fill") || !strcmp(w[0], "fillclone")) && n == 1) {
       if (kind != K_TREE) { printf("%s wrong-form\n", w[0]); continue; }
       struct jbl *j = 0;
+      rc = 0;
       if (w[0][1] == 'r') rc = jbl_from_node(&j, tree);
-      else { rc = jbl_create_empty_object(&j); if (!rc) { rc = jbl_fill_from_node(j, tree); if (rc) jbl_destroy(&j); } }
+      else if (!strcmp(w[0], "fillclone") && tree->type >= JBV_OBJECT) {
+        if (setbuild(tree, &j, &rc)) { if (j) jbl_destroy(&j); j = 0; rc = 0; }   // not expressible through the setters
+      }
+      if (!j && !rc && w[0][1] != 'r') { rc = jbl_create_empty_object(&j); if (!rc) { rc = jbl_fill_from_node(j, tree); if (rc) jbl_destroy(&j); } }
       if (rc) { printf("%s %s\n", w[0], rcname(rc)); if (j) jbl_destroy(&j); continue; }
+      if (!strcmp(w[0], "fillclone") && jbl_type(j) >= JBV_OBJECT && n_pools < MAXLIVE) {
+        // the freshly built holder has not been read yet (its header is not flushed): clone it into a pool right away,
+        // then go on using the pool - the clone must keep its bytes
+        struct iwpool *p = iwpool_create_empty();
+        struct jbl *c = 0;
+        rc = jbl_clone_into_pool(j, &c, p);
+        if (rc) { printf("fillclone %s\n", rcname(rc)); iwpool_destroy(p); jbl_destroy(&j); continue; }
+        for (int i = 0; i < 6; ++i) { void *x = iwpool_alloc(8 + 24 * i, p); if (x) memset(x, 0xAB, 8 + 24 * i); }
+        jbl_destroy(&j);
+        live_pools[n_pools++] = p;
+        struct jbl *h = 0;
+        rc = jbl_from_buf_keep(&h, c->bn.ptr, c->bn.size, true);
+        if (rc) { printf("fillclone rebuf-%s\n", rcname(rc)); kind = K_NONE; continue; }
+        j = h;
+      }
       // the binary form must not depend on the tree: drop the tree now
       iwpool_destroy(tree_pool); tree_pool = 0; tree = 0;
       bin = j; kind = K_BIN;
